@@ -41,6 +41,10 @@ pub struct Case {
     pub gc: bool,
     pub level: u8,
     pub undo: bool,
+    /// bit i set: the transaction that starts with op i runs under origin "o1", which the undo managers track
+    /// (0: no origin is configured anywhere)
+    #[serde(default)]
+    pub origins: u32,
     /// (op, commit after it)
     pub prog: Vec<(Op, bool)>,
 }
@@ -1064,6 +1068,123 @@ extern "C" fn cb_xml(_: *mut std::ffi::c_void, e: *const c::YXmlEvent) {
     }
 }
 
+unsafe fn render_c_path(p: *mut c::YPathSegment, n: u32) -> String {
+    let mut out = Vec::new();
+    for i in 0..n as usize {
+        let s = &*p.add(i);
+        out.push(match s.tag {
+            c::Y_EVENT_PATH_KEY => format!("k:{}", cstr(s.value.key)),
+            c::Y_EVENT_PATH_INDEX => format!("i:{}", s.value.index),
+            t => format!("tag{}", t),
+        });
+    }
+    out.join("/")
+}
+
+fn render_r_path(p: &yrs::types::Path) -> String {
+    p.iter()
+        .map(|s| match s {
+            yrs::types::PathSegment::Key(k) => format!("k:{}", k),
+            yrs::types::PathSegment::Index(i) => format!("i:{}", i),
+        })
+        .collect::<Vec<_>>()
+        .join("/")
+}
+
+thread_local! {
+    static C_DEEP: std::cell::RefCell<Vec<String>> = std::cell::RefCell::new(Vec::new());
+    static C_UPDATES: std::cell::RefCell<Vec<(usize, Vec<u8>)>> = std::cell::RefCell::new(Vec::new());
+}
+
+extern "C" fn cb_update(state: *mut std::ffi::c_void, len: u32, bytes: *const c_char) {
+    let v = unsafe { std::slice::from_raw_parts(bytes as *const u8, len as usize).to_vec() };
+    C_UPDATES.with(|l| l.borrow_mut().push((state as usize, v)));
+}
+
+extern "C" fn cb_deep(_: *mut std::ffi::c_void, len: u32, events: *const c::YEvent) {
+    unsafe {
+        for i in 0..len as usize {
+            let e = &*events.add(i);
+            let s = match e.tag {
+                c::Y_TEXT => {
+                    let ev = &e.content.text as *const c::YTextEvent;
+                    let (mut n, mut pn) = (0u32, 0u32);
+                    let d = c::ytext_event_delta(ev, &mut n);
+                    let r = render_c_text_delta(d, n);
+                    c::ytext_delta_destroy(d, n);
+                    let p = c::ytext_event_path(ev, &mut pn);
+                    let ps = render_c_path(p, pn);
+                    c::ypath_destroy(p, pn);
+                    format!("text@{} {}", ps, r)
+                }
+                c::Y_ARRAY => {
+                    let ev = &e.content.array as *const c::YArrayEvent;
+                    let (mut n, mut pn) = (0u32, 0u32);
+                    let d = c::yarray_event_delta(ev, &mut n);
+                    let r = render_c_changes(d, n);
+                    c::yevent_delta_destroy(d, n);
+                    let p = c::yarray_event_path(ev, &mut pn);
+                    let ps = render_c_path(p, pn);
+                    c::ypath_destroy(p, pn);
+                    format!("array@{} {}", ps, r)
+                }
+                c::Y_MAP => {
+                    let ev = &e.content.map as *const c::YMapEvent;
+                    let (mut n, mut pn) = (0u32, 0u32);
+                    let d = c::ymap_event_keys(ev, &mut n);
+                    let r = render_c_keys(d, n);
+                    c::yevent_keys_destroy(d, n);
+                    let p = c::ymap_event_path(ev, &mut pn);
+                    let ps = render_c_path(p, pn);
+                    c::ypath_destroy(p, pn);
+                    format!("map@{} {}", ps, r)
+                }
+                c::Y_XML_ELEM | c::Y_XML_FRAG => {
+                    let ev = &e.content.xml_elem as *const c::YXmlEvent;
+                    let (mut n, mut kn, mut pn) = (0u32, 0u32, 0u32);
+                    let d = c::yxmlelem_event_delta(ev, &mut n);
+                    let r = render_c_changes(d, n);
+                    c::yevent_delta_destroy(d, n);
+                    let k = c::yxmlelem_event_keys(ev, &mut kn);
+                    let ks = render_c_keys(k, kn);
+                    c::yevent_keys_destroy(k, kn);
+                    let p = c::yxmlelem_event_path(ev, &mut pn);
+                    let ps = render_c_path(p, pn);
+                    c::ypath_destroy(p, pn);
+                    format!("xml@{} {} keys[{}]", ps, r, ks)
+                }
+                c::Y_XML_TEXT => {
+                    let ev = &e.content.xml_text as *const c::YXmlTextEvent;
+                    let (mut n, mut kn, mut pn) = (0u32, 0u32, 0u32);
+                    let d = c::yxmltext_event_delta(ev, &mut n);
+                    let r = render_c_text_delta(d, n);
+                    c::ytext_delta_destroy(d, n);
+                    let k = c::yxmltext_event_keys(ev, &mut kn);
+                    let ks = render_c_keys(k, kn);
+                    c::yevent_keys_destroy(k, kn);
+                    let p = c::yxmltext_event_path(ev, &mut pn);
+                    let ps = render_c_path(p, pn);
+                    c::ypath_destroy(p, pn);
+                    format!("xmltext@{} {} keys[{}]", ps, r, ks)
+                }
+                t => format!("event-tag{}", t),
+            };
+            C_DEEP.with(|l| l.borrow_mut().push(s));
+        }
+    }
+}
+
+fn render_r_event(txn: &yrs::TransactionMut, e: &yrs::types::Event) -> String {
+    match e {
+        yrs::types::Event::Text(e) => format!("text@{} {}", render_r_path(&e.path()), render_r_text_delta(e.delta(txn))),
+        yrs::types::Event::Array(e) => format!("array@{} {}", render_r_path(&e.path()), render_r_changes(e.delta(txn))),
+        yrs::types::Event::Map(e) => format!("map@{} {}", render_r_path(&e.path()), render_r_keys(e.keys(txn))),
+        yrs::types::Event::XmlFragment(e) => format!("xml@{} {} keys[{}]", render_r_path(&e.path()), render_r_changes(e.delta(txn)), render_r_keys(e.keys(txn))),
+        yrs::types::Event::XmlText(e) => format!("xmltext@{} {} keys[{}]", render_r_path(&e.path()), render_r_text_delta(e.delta(txn)), render_r_keys(e.keys(txn))),
+        _ => "event-other".into(),
+    }
+}
+
 struct Sticky {
     step: usize,
     root: char,
@@ -1091,6 +1212,28 @@ unsafe fn run_pair(ctx: &mut Ctx, case: &Case) -> Result<Model, (String, String)
         c::ymap_observe(d.roots[2].0, null_mut(), cb_map),
         c::yxmlelem_observe(d.roots[3].0, null_mut(), cb_xml),
     ];
+    C_DEEP.with(|l| l.borrow_mut().clear());
+    C_UPDATES.with(|l| l.borrow_mut().clear());
+    let c_subs2 = [
+        c::yobserve_deep(d.roots[1].0, null_mut(), cb_deep),
+        c::yobserve_deep(d.roots[2].0, null_mut(), cb_deep),
+        c::yobserve_deep(d.roots[3].0, null_mut(), cb_deep),
+        c::ydoc_observe_updates_v1(d.doc, 1 as *mut std::ffi::c_void, cb_update),
+        c::ydoc_observe_updates_v2(d.doc, 2 as *mut std::ffi::c_void, cb_update),
+    ];
+    let r_deep: std::sync::Arc<std::sync::Mutex<Vec<String>>> = Default::default();
+    let r_updates: std::rc::Rc<std::cell::RefCell<Vec<(usize, Vec<u8>)>>> = Default::default();
+    let _r_subs2 = {
+        use yrs::DeepObservable;
+        let (l1, l2, l3, u1, u2) = (r_deep.clone(), r_deep.clone(), r_deep.clone(), r_updates.clone(), r_updates.clone());
+        (
+            roots_t.a.observe_deep(move |txn, es| l1.lock().unwrap().extend(es.iter().map(|e| render_r_event(txn, e)))),
+            roots_t.m.observe_deep(move |txn, es| l2.lock().unwrap().extend(es.iter().map(|e| render_r_event(txn, e)))),
+            roots_t.x.observe_deep(move |txn, es| l3.lock().unwrap().extend(es.iter().map(|e| render_r_event(txn, e)))),
+            t.observe_update_v1(move |_, e| u1.borrow_mut().push((1, e.update.clone()))).unwrap(),
+            t.observe_update_v2(move |_, e| u2.borrow_mut().push((2, e.update.clone()))).unwrap(),
+        )
+    };
     let r_events: std::rc::Rc<std::cell::RefCell<Vec<String>>> = Default::default();
     let _r_subs = {
         use yrs::Observable;
@@ -1124,6 +1267,10 @@ unsafe fn run_pair(ctx: &mut Ctx, case: &Case) -> Result<Model, (String, String)
             'm' => um.expand_scope(&t, &roots_t.m),
             'x' => um.expand_scope(&t, &roots_t.x),
             _ => um.expand_scope(&t, &roots_t.t),
+        }
+        if case.origins != 0 {
+            c::yundo_manager_add_origin(um_c, 2, b"o1".as_ptr() as *const c_char);
+            um.include_origin("o1");
         }
         um_t = Some(um);
     }
@@ -1346,14 +1493,15 @@ unsafe fn run_pair(ctx: &mut Ctx, case: &Case) -> Result<Model, (String, String)
 
     for (step, (op, commit)) in case.prog.iter().enumerate() {
         if ctxn.is_null() {
-            ctxn = c::ydoc_write_transaction(d.doc, 0, null());
+            let with_origin = case.origins & (1 << step) != 0;
+            ctxn = if with_origin { c::ydoc_write_transaction(d.doc, 2, b"o1".as_ptr() as *const c_char) } else { c::ydoc_write_transaction(d.doc, 0, null()) };
             if ctxn.is_null() {
                 return Err(v("write-transaction-refused", format!("step {}: ydoc_write_transaction NULL with no transaction open", step)));
             }
             if c::ytransaction_writeable(ctxn) != 1 {
                 return Err(v("transaction-kind", "a write transaction reports read-only".into()));
             }
-            ttxn = Some(t.transact_mut());
+            ttxn = Some(if with_origin { t.transact_mut_with("o1") } else { t.transact_mut() });
         }
         let tt = ttxn.as_mut().unwrap();
         apply_real(&roots_t, tt, kind, op).map_err(|e| ("harness".to_string(), format!("twin refuses {:?}: {}", op, e)))?;
@@ -1385,6 +1533,20 @@ unsafe fn run_pair(ctx: &mut Ctx, case: &Case) -> Result<Model, (String, String)
                 }
                 if !ce.is_empty() {
                     ctx.count("transactions_with_events_compared", 1);
+                }
+                let mut cd: Vec<String> = C_DEEP.with(|l| l.borrow_mut().drain(..).collect());
+                let mut rd: Vec<String> = r_deep.lock().unwrap().drain(..).collect();
+                cd.sort();
+                rd.sort();
+                if ordered && cd != rd {
+                    return Err(v("deep-observer-events-differ", format!("step {}: C callback saw {:?}, Rust observer {:?}", step, cd, rd)));
+                }
+                let mut cu: Vec<(usize, Vec<u8>)> = C_UPDATES.with(|l| l.borrow_mut().drain(..).collect());
+                let mut ru: Vec<(usize, Vec<u8>)> = r_updates.borrow_mut().drain(..).collect();
+                cu.sort();
+                ru.sort();
+                if cu.len() != ru.len() || (ordered && cu != ru) {
+                    return Err(v("update-observer-payloads-differ", format!("step {}: C callbacks got {:?}, Rust observers {:?}", step, cu, ru)));
                 }
             }
             let cur = after_commit(ctx, step, "after-commit", ordered, &mut svs, &mut snaps, &mut stickies)?;
@@ -1543,6 +1705,9 @@ unsafe fn run_pair(ctx: &mut Ctx, case: &Case) -> Result<Model, (String, String)
     for s in c_subs {
         c::yunobserve(s);
     }
+    for s in c_subs2 {
+        c::yunobserve(s);
+    }
     for s in stickies.drain(..) {
         c::ysticky_index_destroy(s.c);
     }
@@ -1555,7 +1720,7 @@ unsafe fn run_pair(ctx: &mut Ctx, case: &Case) -> Result<Model, (String, String)
 pub fn run_case(ctx: &mut Ctx, case: &Case, cj: &dyn Fn() -> Value) {
     match unsafe { run_pair(ctx, case) } {
         Ok(fin) => {
-            ctx.state(hash_of(&(case.utf16, case.gc, case.undo, &fin, case.prog.len())));
+            ctx.state(hash_of(&(case.utf16, case.gc, case.undo, case.origins, &fin, case.prog.len())));
             ctx.outcome(hash_of(&fin));
         }
         Err((class, msg)) if class == "harness" => ctx.machinery_error(format!("{} on {}", msg, cj())),
@@ -1720,17 +1885,23 @@ fn run(ctx: &mut Ctx) {
                     for gc in [true, false] {
                         // the undo pass rides on the fully committed grouping
                         let undo = mask + 1 == masks;
-                        let case = Case {
-                            fam,
-                            utf16,
-                            gc,
-                            level,
-                            undo,
-                            prog: p.iter().enumerate().map(|(i, o)| (o.clone(), i + 1 == n || mask & (1 << i) != 0)).collect(),
-                        };
-                        let cj = || serde_json::to_value(&case).unwrap();
-                        ctx.exec(&cj, |ctx| run_case(ctx, &case, &cj));
-                        ctx.sample(cj);
+                        // tracked origins: none configured | every second transaction tracked | all tracked
+                        let all = (1u32 << n) - 1;
+                        let origin_sets: Vec<u32> = if undo && gc && n >= 2 { vec![0, 0b0101_0101 & all, all] } else { vec![0] };
+                        for origins in origin_sets {
+                            let case = Case {
+                                fam,
+                                utf16,
+                                gc,
+                                level,
+                                undo,
+                                origins,
+                                prog: p.iter().enumerate().map(|(i, o)| (o.clone(), i + 1 == n || mask & (1 << i) != 0)).collect(),
+                            };
+                            let cj = || serde_json::to_value(&case).unwrap();
+                            ctx.exec(&cj, |ctx| run_case(ctx, &case, &cj));
+                            ctx.sample(cj);
+                        }
                     }
                 }
             }
